@@ -308,6 +308,7 @@ structure RunFacts (cfg : DispCfg) (h : Int) (s s' : DispState) (os : List (Key 
   keepF : ∀ k, (∀ x ∈ os, x.1 ≠ k) → sGet s'.failed k = sGet s.failed k
   bank : ∀ a d, a ≠ cfg.module → s'.bank.bal a d = s.bank.bal a d + paidTo os a d
   dists : s'.dists = s.dists
+  supply : ∀ d, s'.bank.sup d = s.bank.sup d
   donePaid : ∀ x ∈ os, x.2.2 = .paid → sGet s'.completed x.1 = some { x.2.1 with done := h }
   doneFailed : ∀ x ∈ os, x.2.2 = .failed → sGet s'.failed x.1 = some { x.2.1 with done := h }
   claimsDel : ∀ x ∈ os, x.2.2 = .paid → x.2.1.typ.claimable = true →
@@ -344,6 +345,7 @@ theorem payAll_spec (cfg : DispCfg) (h : Int) :
     · exact fun _ _ => rfl
     · intro a d _; simp [paidTo]
     · rfl
+    · intro d; rfl
     · intro x hx; cases hx
     · intro x hx; cases hx
     · intro x hx; cases hx
@@ -401,7 +403,7 @@ theorem payAll_spec (cfg : DispCfg) (h : Int) :
           split at hk
           · exact (sGet_sDel_some hi.wf.sl hk).1
           · exact hk
-      refine ⟨?_, ?_, ?_, ?_, ?_, ?_, ?_, ?_, ?_, ?_, ?_, ?_, ?_⟩
+      refine ⟨?_, ?_, ?_, ?_, ?_, ?_, ?_, ?_, ?_, ?_, ?_, ?_, ?_, ?_⟩
       · intro k r' hk; exact hshrink1 k r' (hf.shrink k r' hk)
       · intro y hy hne
         simp at hy
@@ -453,6 +455,16 @@ theorem payAll_spec (cfg : DispCfg) (h : Int) :
             · have : ¬ r.rcpt = a := fun e' => e e'.symm
               simp [e, this]
       · rw [hf.dists]; cases hrel <;> rfl
+      · intro d
+        rw [hf.supply d]
+        cases hrel with
+        | skipped _ => rfl
+        | failed _ _ => rfl
+        | paid b' _ hs =>
+          unfold sendModuleToAccount at hs
+          split at hs
+          · cases hs
+          · exact sup_sendCoins hs d
       · intro y hy hp
         simp at hy
         rcases hy with rfl | hy
